@@ -223,7 +223,7 @@ func init() {
 		Includes:   map[string]string{"C01": "transfer-targets-chosen"},
 		MinQuick:   20, MinThorough: 200,
 		Counters:     []string{"transfer-targets-chosen", "transfers-succeeded", "transfers-failed", "timeout-now-delivered", "leader-appends", "leaders-elected"},
-		Prefixes:     []string{"admin:transfer:", "timeout-now:", "pending-actions-after-failed-transfer:"},
+		Prefixes:     []string{"admin:transfer:", "timeout-now:", "pending-actions-after-failed-transfer:", "after-failed-transfer:"},
 		SampleTopics: []string{"transfer"},
 		Assumptions:  stdAssumptions,
 	}
@@ -247,7 +247,7 @@ func init() {
 		Nontrivial: all(ge("faults", 1)),
 		MinQuick:   20, MinThorough: 200,
 		Counters:    []string{"converged", "convergence-ticks", "faults", "vote-requests-while-leader-known", "elections", "leaders-elected", "crashes"},
-		Prefixes:    []string{"fault:"},
+		Prefixes:    []string{"fault:", "bounded-election:", "bounded-catch-up:", "elections-timed-against"},
 		Par:         6,
 		Assumptions: append([]string{"liveness is restated as bounded progress on a logical tick clock; no finite run decides 'eventually'"}, stdAssumptions...),
 	}
